@@ -301,8 +301,10 @@ def encFresh (fs channels arch silkOff celtOff : Int) (c : Settings) : Enc :=
     :2294-2336): `bitrateBps`, those `silkMode` and `celt` members.
     Gated (read only under a condition on other members):
       `toMono`        read at :1483 only when `prev_channels == 2`;
-      `useDTX`        read by OPUS_GET_IN_DTX (:3122) only when `prev_mode` is SILK or hybrid, and written
-                      (:1388) before every read inside a call;
+      `useDTX`        read by OPUS_GET_IN_DTX (:3133) only when `prev_mode` is SILK or hybrid; inside a call it
+                      is compared with the new choice (:1389-1399) only to clear `nb_no_activity_ms_Q1` and
+                      SILK's noSpeechCounter, which does nothing while both are still zero (no frame
+                      completed since the reset, SILK state fresh), and is then overwritten;
       `opusCanSwitch` read by silk_control_audio_bandwidth only when the SILK state has a sampling
                       rate, i.e. is not freshly initialised (silk/control_audio_bandwidth.c:45-49). -/
 structure View where
@@ -401,7 +403,8 @@ def view (s : Enc) : View :=
     allowBandwidthSwitch := s.silkMode.allowBandwidthSwitch,
     inWBmodeWithoutVariableLP := s.silkMode.inWBmodeWithoutVariableLP,
     toMonoGated := if s.prevChannels = 2 then s.silkMode.toMono else 0,
-    useDTXGated := if s.prevMode = MODE_SILK_ONLY ∨ s.prevMode = MODE_HYBRID then s.silkMode.useDTX else 0,
+    useDTXGated := if s.prevMode = MODE_SILK_ONLY ∨ s.prevMode = MODE_HYBRID ∨ s.nbNoActivityMsQ1 ≠ 0 ∨ s.silkState ≠ .fresh
+                   then s.silkMode.useDTX else 0,
     opusCanSwitchGated := if s.silkState = .fresh then 0 else s.silkMode.opusCanSwitch,
     celtChannels := s.celt.channels, celtForceIntra := s.celt.forceIntra, celtClip := s.celt.clip,
     celtDisablePf := s.celt.disablePf, celtComplexity := s.celt.complexity, celtUpsample := s.celt.upsample,
@@ -516,8 +519,8 @@ structure Out where
 inductive Path
   | entryError     -- :1157-1168: frame_size/max_data_bytes rejected; only rangeFinal := 0
   | lowBudget      -- :1267-1333: "PLC frame"; analysis / voice_ratio / width_mem / bitrate_bps updated
-  | silkNoOutput   -- single-frame packet whose SILK frame produced no bytes (:2119-2125) or failed:
-                   -- decisions and SILK ran, the end-of-frame updates (:2405-2412) did not
+  | silkNoOutput   -- single-frame packet whose SILK frame produced no bytes (:2119-2128): decisions and SILK ran,
+                   -- `prev_channels` is updated, the other end-of-frame updates (:2419-2426) are not
   | full           -- at least one (sub)frame reached :2405-2412
   deriving DecidableEq, Repr
 
@@ -615,7 +618,7 @@ def encodeStep (O : Oracles) (s : Enc) (x : Inp) : Enc × Out :=
       ({ s1 with
          prevMode := b.prevMode, prevChannels := b.prevChannels, prevFramesize := b.prevFramesize,
                  first := 0, nbNoActivityMsQ1 := b.nbNoActivityMsQ1 }, O.out v x)
-    | _ => (s1, O.out v x)
+    | _ => ({ s1 with prevChannels := b.streamChannels }, O.out v x)    -- :2123-2125 (SILK consumed the frame)
 
 /-- The value an OPUS_GET_* request stores, as a function of the view (opus_encoder.c:2655-3139;
     GET_BITRATE uses user_bitrate_bps / prev_framesize, GET_IN_DTX the gated `useDTX` and the SILK state). -/
